@@ -505,6 +505,7 @@ class Check:
             else:
                 broken.append({'name': 'coqchk', 'ok': False, 'why': o[-800:]})
         self.coq_log = mlog
+        self._broken = broken
         return broken
 
     # -- violations
@@ -540,6 +541,12 @@ class Check:
         return None
 
     def finish(self):
+        # safety net: a broken proof obligation is never silent.  The property modules report it themselves (after their
+        # search for a failing input); if a module returns without ANY violation although an obligation is broken -- e.g.
+        # because every difference it saw on the implementation is a recorded finding -- it is reported here
+        if getattr(self, '_broken', None) and not self.violations:
+            for b in self._broken:
+                self.violation({'kind': 'obligation', 'theorem': b.get('name'), 'why': b.get('why', '')}, no_input=True)
         wall = time.time() - self.t0
         self.cov['known_findings_seen'] = sorted(self.known_seen.keys())
         self.cov['notes'] = self.notes
